@@ -20,10 +20,27 @@ def is_not_too_large(event, config):
         raise StorageError("invalid: 280 characters should be enough for anybody")
 
 
+def _is_lower_hex(value, length):
+    return (
+        isinstance(value, str)
+        and len(value) == length
+        and all(c in "0123456789abcdef" for c in value)
+    )
+
+
 def is_signed(event, config):
     """
     Ensure the event is correctly formatted and signed
     """
+    # bytes.fromhex() tolerates upper case and whitespace and verify() does not
+    # look at the type of created_at, but events are stored as bytes/integers
+    # and served inside hand-built JSON, so insist on the canonical NIP-01 form
+    if not (
+        type(event.created_at) is int
+        and _is_lower_hex(event.pubkey, 64)
+        and _is_lower_hex(event.sig, 128)
+    ):
+        raise StorageError("invalid: Bad format")
     if not event.verify():
         raise StorageError("invalid: Bad signature")
     # verify() checks the signature against the recomputed hash only;
